@@ -48,6 +48,7 @@ inductive UPc where
   | c4             -- Connected reported, monitor started
   | cClose1        -- session failed: Connect calls Close
   | cClose2        -- … Closed reported
+  | cNsFail        -- UpdateNamespaces failed after Connected was reported: Connect calls Close
   | running        -- Connect returned nil
   | failed         -- Connect returned an error
   deriving Repr, DecidableEq
@@ -122,6 +123,8 @@ def tau (s : St) : List St :=
    | .c2 => [{ s with upc := .cDialFailed }, { s with upc := .cSess }]
    -- CreateSession / ActivateSession failed (→ c.Close(ctx)) / succeeded
    | .cSess => [{ s with upc := .cClose1 }, { s with upc := .c3, sess := true }]
+   -- c.UpdateNamespaces(ctx) fails (the monitor is already running): c.Close(ctx) — the same steps as a user Close
+   | .c4 => [{ s with upc := .cNsFail, cl := .begun }]
    | _ => []) ++
   (match s.mpc with
    -- case <-ctx.Done(): return          (top-level select)
@@ -176,12 +179,15 @@ def obs (s : St) (e : Ev) : List St :=
      | _, _ => [])
    else []) ++
   (match e with
-   | .uConnect => if s.upc == .fresh then [{ s with upc := .c0 }] else []
+   -- Connect; it may be called again after a Connect that failed before the monitor was started
+   | .uConnect =>
+     if s.upc == .fresh || (s.upc == .failed && s.cl == .no && s.mpc == .notStarted) then [{ s with upc := .c0 }] else []
    | .uConnectOk => if s.upc == .c4 then [{ s with upc := .running }] else []
    | .uConnectErr =>
-     if s.upc == .cDialFailed || s.upc == .cClose2 then [{ s with upc := .failed }] else []
+     if s.upc == .cDialFailed || s.upc == .cClose2 then [{ s with upc := .failed }]
+     else if s.upc == .cNsFail && s.cl == .reported then [{ s with upc := .failed, cl := .ended }] else []
    | .uClose => if s.upc == .running && s.cl == .no then [{ s with cl := .begun }] else []
-   | .uCloseEnd => if s.cl == .reported then [{ s with cl := .ended }] else []
+   | .uCloseEnd => if s.upc == .running && s.cl == .reported then [{ s with cl := .ended }] else []
    | .dial =>
      -- c.cfg.dialer.Dial(ctx, c.endpointURL): one TCP connect attempt (not made when ctx is cancelled)
      (if s.upc == .c1 then [{ s with upc := .c2 }] else []) ++
@@ -278,11 +284,14 @@ def monTable (m : MPc) (l : ConnState) : Bool :=
     report of Close and of an exited monitor is Closed -/
 def Good (s : St) : Bool :=
   (match s.upc with
-   | .fresh | .c0 => s.last == .closed && s.mpc == .notStarted && s.cl == .no
+   | .fresh => s.last == .closed && s.mpc == .notStarted && s.cl == .no
+   | .c0 => (s.last == .closed || s.last == .connecting) && s.mpc == .notStarted && s.cl == .no
    | .c1 | .c2 | .cDialFailed | .cSess | .c3 | .cClose1 => s.last == .connecting && s.mpc == .notStarted && s.cl == .no
    | .cClose2 => s.last == .closed && s.mpc == .notStarted && s.cl == .no
-   | .failed => s.mpc == .notStarted && (s.last == .closed || s.last == .connecting) && s.cl == .no
+   | .failed => (s.mpc == .notStarted && (s.last == .closed || s.last == .connecting) && s.cl == .no) ||
+                (s.mpc != .notStarted && s.cl == .ended)
    | .c4 => s.mpc != .notStarted && s.cl == .no
+   | .cNsFail => s.mpc != .notStarted && (s.cl == .begun || s.cl == .reported)
    | .running => s.mpc != .notStarted) &&
   (s.cancelled || monTable s.mpc s.last) &&
   (s.mpc != .dead || s.last == .closed) &&
